@@ -28,6 +28,9 @@ type GenInput struct {
 	// opposite) | split (the package says the opposite, only the first interface sets the value: the interfaces
 	// of one output file then have different effective values)
 	OptLevels map[string]string `json:"optLevels,omitempty"`
+	// replace-type alpha.T -> alpha.A (an alias of T) written at this level (root | package | interface): the mock
+	// names the type differently and must still implement the interface
+	ReplaceAlias string `json:"replaceAlias,omitempty"`
 	// names of interfaces that are also declared as function-local types (inside a function
 	// body / inside a function literal of a package-level initialiser)
 	LocalTypes []string `json:"localTypes"`
@@ -81,6 +84,33 @@ func genGen(r *rand.Rand, idx int, stream string) GenInput {
 		for _, k := range []string{"skip-ensure", "stub-impl", "with-resets"} {
 			if r.Intn(2) == 0 {
 				in.Options[k] = r.Intn(2) == 0
+			}
+		}
+	}
+	if stream == "" && r.Intn(3) == 0 {
+		in.ReplaceAlias = pick(r, []string{"root", "package", "interface"})
+		tT := TyJ{K: "named", Pkg: pkgAlpha, PkgName: "alpha", Name: "T"}
+		tA := TyJ{K: "named", Pkg: pkgAlpha, PkgName: "alpha", Name: "A", Alias: true}
+		for i := range in.Data.Ifaces {
+			it := &in.Data.Ifaces[i]
+			for j := range it.Methods {
+				m := &it.Methods[j]
+				// the replaced type in front of parameters / results of unnamed types
+				if m.From == "" && len(m.Params) >= 2 && !(m.Variadic && len(m.Params) == 1) && r.Intn(2) == 0 {
+					m.Params[0].Type = tT
+				}
+				if m.From == "" && len(m.Results) >= 2 && r.Intn(2) == 0 {
+					m.Results[0].Type = tT
+				}
+				for _, l := range []*[]VarJ{&m.Params, &m.Results} {
+					for k := range *l {
+						t := (*l)[k].Type
+						if t.K == "named" && t.Pkg == pkgAlpha && t.Name == "T" && !(m.Variadic && l == &m.Params && k == len(*l)-1) {
+							a := tA
+							(*l)[k].Replacement = &a
+						}
+					}
+				}
 			}
 		}
 	}
@@ -309,6 +339,12 @@ func (p c01) Run(c *Ctx, raw json.RawMessage) Case {
 	for _, it := range d.Ifaces {
 		names = append(names, it.Name)
 	}
+	replaceYAML := func(indent string) string {
+		return fmt.Sprintf("%sreplace-type:\n%s  %s:\n%s    T:\n%s      pkg-path: %s\n%s      type-name: A\n", indent, indent, pkgAlpha, indent, indent, pkgAlpha, indent)
+	}
+	if in.ReplaceAlias == "root" {
+		cfg.WriteString(replaceYAML(""))
+	}
 	topTD, pkgTD, ifaceTD := levelledOptions(in.Options, in.OptLevels, names)
 	if len(topTD) > 0 {
 		cfg.WriteString("template-data:\n")
@@ -317,8 +353,14 @@ func (p c01) Run(c *Ctx, raw json.RawMessage) Case {
 		}
 	}
 	fmt.Fprintf(&cfg, "packages:\n  %s:\n", pkgSrc)
-	if len(pkgTD) > 0 {
-		cfg.WriteString("    config:\n      template-data:\n")
+	if len(pkgTD) > 0 || in.ReplaceAlias == "package" {
+		cfg.WriteString("    config:\n")
+		if in.ReplaceAlias == "package" {
+			cfg.WriteString(replaceYAML("      "))
+		}
+		if len(pkgTD) > 0 {
+			cfg.WriteString("      template-data:\n")
+		}
 		for _, l := range pkgTD {
 			cfg.WriteString("        " + l + "\n")
 		}
@@ -326,8 +368,15 @@ func (p c01) Run(c *Ctx, raw json.RawMessage) Case {
 	cfg.WriteString("    interfaces:\n")
 	for _, it := range d.Ifaces {
 		fmt.Fprintf(&cfg, "      %s:\n", it.Name)
-		if ls := ifaceTD[it.Name]; len(ls) > 0 {
-			cfg.WriteString("        config:\n          template-data:\n")
+		ls := ifaceTD[it.Name]
+		if len(ls) > 0 || in.ReplaceAlias == "interface" {
+			cfg.WriteString("        config:\n")
+			if in.ReplaceAlias == "interface" {
+				cfg.WriteString(replaceYAML("          "))
+			}
+			if len(ls) > 0 {
+				cfg.WriteString("          template-data:\n")
+			}
 			for _, l := range ls {
 				cfg.WriteString("            " + l + "\n")
 			}
@@ -340,6 +389,9 @@ func (p c01) Run(c *Ctx, raw json.RawMessage) Case {
 	tags := []string{"tmpl-" + in.Template, "fmt-" + in.Formatter, "place-" + d.Placement, "gomod-" + in.GoMod}
 	if d.Stream != "" {
 		tags = append(tags, "stream-"+d.Stream)
+	}
+	if in.ReplaceAlias != "" {
+		tags = append(tags, "replace-alias-"+in.ReplaceAlias)
 	}
 	if out, err := runGo(dir, "build", "./..."); err != nil {
 		return Case{Oracle: fail("harness-source", "generated source does not compile: %s", lastLines(out, 6)), NoModel: true, Tags: tags}
